@@ -413,7 +413,10 @@ def gen_kw(f, key, cgen=None):
         bound = N.gen_bound_params(key, ic)
         if bound:
             kw["params"] = bound
-        helpers = N.exclusive_helpers(key)
+        helpers = set(N.exclusive_helpers(key))
+        subgens = N.exclusive_subgenerators(key)
+        for sg in subgens:
+            helpers |= {sg} | set(N.exclusive_helpers(sg))
         if helpers:
             kw["inline"] = lambda n, hs=helpers: True if n in hs else None
     return kw
